@@ -347,7 +347,9 @@ def replay_main(path):
         spec = dict(f['case']['shard_spec'])
         try:
             import a5  # noqa
-            mod.run_shard(spec, Recorder(spec.get('seed', 1), spec.get('shard', 0)))
+            r2 = Recorder(spec.get('seed', 1), spec.get('shard', 0))
+            r2.tier = spec.get('tier', 'quick')
+            mod.run_shard(spec, r2)
         except Exception as e:
             ctx.fail('api_raised_unexpectedly', f['case'], exc=repr(e))
     else:
